@@ -413,6 +413,22 @@ func (c *Ctx) rulePhaseConstructor() {
 		if bad != "" {
 			r.Bad("C07-PHASE-CONSTRUCTOR", f.Name(), "after scanning, an error is built with "+bad+": it is located in the root file whatever file the directive came from, without include trace", c.pos(f.Decl.Pos()))
 		}
+		// ... and nothing else is read from the scanner either: after the scan core.scanner is the scanner of the ROOT
+		// file again, and what its text says (does it spell PASTE? how long is it?) says nothing about the project,
+		// whose directives may all come from included files
+		if scn := c.coreField("scanner"); scn != nil {
+			ast.Inspect(f.Decl.Body, func(nd ast.Node) bool {
+				sel, ok := nd.(*ast.SelectorExpr)
+				if !ok {
+					return true
+				}
+				if fld := fieldSel(pk, sel); fld != nil && fld.Origin() == scn.Origin() {
+					r.Bad("C07-PHASE-CONSTRUCTOR", f.Name()+" | reads core.scanner", "a function of the post-scan phases reads the scanner of the core: it is the scanner of the root file there, so whatever is decided from its file or its position holds for the root file only - a project whose directives sit in included files is treated differently", c.pos(sel.Pos()))
+					return false
+				}
+				return true
+			})
+		}
 	}
 	r.Ok("C07-PHASE-CONSTRUCTOR", "post-scan phases", fmt.Sprintf("%d functions reachable from the four post-scan phases; violations listed separately", n), "")
 	// (that makeError attaches the trace on every path is C07-DIRECTIVE-TRACE)
